@@ -37,8 +37,25 @@ fn live_with_prefix(p: &str) -> i64 {
     LIVE.lock().unwrap().iter().filter(|(k, _)| k.starts_with(p)).map(|(_, v)| *v).sum()
 }
 
+/// Bodies: mostly every offset distinguishable; some constant, some periodic with a period that
+/// divides every block size, some whose tail repeats the bytes before it (content must not matter).
 pub fn body_bytes(len: usize, salt: usize) -> Vec<u8> {
-    (0..len).map(|i| ((i * 7 + i / 251 + salt * 13) % 256) as u8).collect()
+    match salt % 7 {
+        1 => vec![0u8; len],
+        3 => (0..len).map(|i| (i % 16) as u8).collect(),
+        5 => {
+            let mut b: Vec<u8> = (0..len).map(|i| ((i * 7 + i / 251 + salt * 13) % 256) as u8).collect();
+            // the last third repeats the third before it
+            let k = len / 3;
+            if k > 0 {
+                for i in len - k..len {
+                    b[i] = b[i - k];
+                }
+            }
+            b
+        }
+        _ => (0..len).map(|i| ((i * 7 + i / 251 + salt * 13) % 256) as u8).collect(),
+    }
 }
 
 fn jbv(b: &Option<BlockValue>) -> Value {
@@ -800,7 +817,37 @@ pub fn rec_script(args: &Args) {
         let mut h = H::new(&mut out, v["M"].as_u64().unwrap() as usize, v["ttl"].as_u64().unwrap(), start);
         let tag = json!({"kind": "script", "n": n});
         let tick = v["tick"].as_u64().unwrap_or(0);
+        // exchanges whose request half has run and whose response half is still to come
+        let mut pending: Vec<(String, u16, CoapRequest<Ep>)> = vec![];
         for st in v["steps"].as_array().unwrap() {
+            if st["op"] == "ireq_only" {
+                let pkt = vpkt(&st["req"]);
+                let ep = st["ep"].as_str().unwrap();
+                let (o, req) = h.ireq(&mut out, ep, &pkt, &tag);
+                if o["k"] == "ok" && o["handled"] == false && req.response.is_some() {
+                    pending.push((ep.to_string(), pkt.header.message_id, req));
+                }
+                continue;
+            }
+            if st["op"] == "iresp_only" {
+                let ep = st["ep"].as_str().unwrap();
+                let mid = st["mid"].as_u64().unwrap() as u16;
+                if let Some(ix) = pending.iter().position(|p| p.0 == ep && p.1 == mid) {
+                    let (_, _, mut req) = pending.remove(ix);
+                    if let (Some(resp), true) = (req.response.as_mut(), st["app"]["some"] == true) {
+                        let a = &st["app"]["v"];
+                        resp.message.header.code = (a["code"].as_u64().unwrap() as u8).into();
+                        resp.message.payload = vbytes(&a["pay"]);
+                        for e in a["opts"].as_array().unwrap() {
+                            for x in e[1].as_array().unwrap() {
+                                resp.message.add_option(CoapOption::from(e[0].as_u64().unwrap() as u16), vbytes(x));
+                            }
+                        }
+                    }
+                    let _ = h.iresp(&mut out, ep, &mut req, &tag);
+                }
+                continue;
+            }
             if st["op"] == "sleep" && st.get("ms").is_none() {
                 // model ticks are mapped to real time: the trace specification judges by the logged times
                 let ms = st["ticks"].as_u64().unwrap_or(1) * tick;
@@ -1078,10 +1125,26 @@ pub fn rec_mixed(args: &Args) {
             a.b2 = if r.chance(1, 2) { Some((0, a.szx)) } else { None };
         }
         let mut mid: u16 = r.next() as u16;
+        // downloads whose application answers later: other actors' requests (sometimes with the very
+        // same message id) are handled in between
+        let mut deferred: Vec<(usize, CoapRequest<Ep>)> = vec![];
+        let small_mids = r.chance(1, 3);
         for _ in 0..r.range(8, 40) {
+            if !deferred.is_empty() && r.chance(1, 2) {
+                let ix = r.below(deferred.len() as u64) as usize;
+                let (ai, mut req) = deferred.remove(ix);
+                if let Some(resp) = req.response.as_mut() {
+                    resp.message.header.code = 0x45.into();
+                    resp.message.payload = actors[ai].body.clone();
+                }
+                let ep = actors[ai].ep.clone();
+                let _ = h.iresp(&mut out, &ep, &mut req, &json!({"kind": "mixed-deferred"}));
+                continue;
+            }
             let n = actors.len();
-            let a = &mut actors[r.below(n as u64) as usize];
-            mid = mid.wrapping_add(1);
+            let ai = r.below(n as u64) as usize;
+            let a = &mut actors[ai];
+            mid = if small_mids { r.range(1, 3) as u16 } else { mid.wrapping_add(1) };
             let tag = json!({"kind": "mixed"});
             let action = r.below(100);
             if action < 8 {
@@ -1159,6 +1222,12 @@ pub fn rec_mixed(args: &Args) {
                 let p = mkreq(&ReqSpec { code: a.code, typ: r.below(2), mid, tok: r.bytes(a.toklen), segs: &a.segs, b1: None, b2: b2.map(|(n, s)| (n, false, s)), pay: vec![], extra });
                 a.last = Some(p.clone());
                 let (o, mut req) = h.ireq(&mut out, &a.ep, &p, &tag);
+                if o["k"] == "ok" && o["handled"] == false && req.response.is_some() && r.chance(1, 4) && deferred.len() < 3 {
+                    // the application will answer later; this actor starts over afterwards
+                    deferred.push((ai, req));
+                    a.b2 = None;
+                    continue;
+                }
                 if o["k"] == "ok" && o["handled"] == false {
                     if let Some(resp) = req.response.as_mut() {
                         resp.message.header.code = 0x45.into();
